@@ -135,11 +135,13 @@ def load_setter(target):
 # ------------------------------------------------------------------ contract objects
 
 class LoopSpec:
-    def __init__(self, header, invariant, shapes=None, facts=None):
+    def __init__(self, header, invariant, shapes=None, facts=None, body_post=None):
         self.header = header          # expected `ast.unparse` of "for <target> in <iter>" / "while <test>"
         self.invariant = invariant    # (ctx, t) -> [(label, z3 Bool)]
         self.shapes = shapes or {}    # var -> shape for lists turned into SymSeq / maybe-unbound vars
         self.facts = facts            # (ctx, t) -> [z3 Bool]  (instances of ghost-definition axioms)
+        self.body_post = body_post    # (ctx, t) -> [(label, z3 Bool)]  obligations about the state at the END of an arbitrary iteration
+                                      # (checked where the body falls through and where it leaves by `break`)
 
 
 class Contract:
@@ -581,12 +583,21 @@ class Engine:
             for _, inv in spec.invariant(ctx, t):
                 self.pm.assume(inv)
             self.assign(s.target, it.get(t))
+
+            def _body_post():
+                if spec.body_post:
+                    c2 = Ctx(self)
+                    f2 = spec.facts(c2, t + 1) if spec.facts else []
+                    for label, goal in spec.body_post(c2, t):
+                        self.record(f"loop{self.loop_ordinal[id(s)]}/iteration/{label}", goal, f2)
             try:
                 self.exec_block(s.body)
             except _Continue:
                 pass
             except _Break:
+                _body_post()
                 return
+            _body_post()
             ctx = Ctx(self)
             facts = spec.facts(ctx, t + 1) if spec.facts else []
             for label, goal in spec.invariant(ctx, t + 1):
